@@ -80,6 +80,21 @@ def tasks(tier):
         cfg = dict(M=M, alphabet=["ok", "x:T", "kbd", "exit", "cancel", "hyb:cancel"], attempt_hooks="call",
                    max_unknown=None, faults=[("aend", idx, "RuntimeError")], sleeper="call")
         out.append({"family": "cancel-with-faulty-end-hook", "cfg": cfg, "entry": e, "bound": 0})
+    # the call is the half-open probe of a breaker: cancellation still leaves the call unchanged
+    PROBE = {"threshold": 1, "window": 8, "recovery": 2, "trip_on": ["T", "U", "P"],
+             "pre": [("fail", "T"), ("tick", 2)]}
+    for e in POL + POL0 + ["RetryPolicy.execute"]:
+        if e.startswith("RetryPolicy"):
+            continue
+        cfg = dict(M=M if "0" not in e else 1, alphabet=["ok", "x:T", "kbd", "exit", "cancel", "hyb:cancel"],
+                   breaker=PROBE, max_unknown=None, sleeper="call",
+                   overshoot=[0, "KeyboardInterrupt", "CancelledError"], over_free=True)
+        out.append({"family": "cancel-as-probe", "cfg": cfg, "entry": e, "bound": 0})
+    # abort_if answers with a truthy value that is not the literal True
+    for mode, e in itertools.product(["answer", "flag"], Q4 + POL[:2]):
+        cfg = dict(M=M, alphabet=["ok", "x:T", "r:T"], abort=True, abort_mode=mode, abort_truthy=True,
+                   sleeper="call", max_unknown=None, strat_menu=[1, 0], strat_free=True)
+        out.append({"family": "abort-truthy", "cfg": cfg, "entry": e, "bound": 1})
     for e in POL0:
         cfg = dict(M=1, alphabet=ALPHA, abort=True)
         out.append({"family": "abort-noretry", "cfg": cfg, "entry": e, "bound": 1})
